@@ -360,6 +360,19 @@ def r2_set_order(ctx):
         del ctx.obs[n_before:]
         ctx.note(f"signature analyser not interpretable ({e}); its set-order sites are judged syntactically")
         analyser_decided = analyser_interpreted = False
+    # the generator(s) that group the sorted candidates into ranks: nested in, or called from, the candidate ordering
+    from .c05 import lookup_path
+
+    multi = A.multimap(repo)
+    rankers = [m for m in lookup_path(ctx, multi) if any(isinstance(c, ast.Call) and ((isinstance(c.func, ast.Attribute) and c.func.attr == "sort") or call_name(c) == "sorted") for c in ast.walk(m.node))]
+    ranker = rankers[0] if len(rankers) == 1 else None
+    rank_groupers = set()
+    if ranker is not None:
+        called = {call_name(c) for c in ast.walk(ranker.node) if isinstance(c, ast.Call)}
+        for g in repo.all_funcs():
+            is_gen = any(isinstance(x, (ast.Yield, ast.YieldFrom)) for x in ast.walk(g.node))
+            if is_gen and (g.parent is ranker or (g.module is ranker.module and (g.name in called or f"self.{g.name}" in called))):
+                rank_groupers.add(g)
     for f, node, kind, name, discharged, why in sites:
         ctx.touch(f)
         if f.cls is an and analyser_interpreted:
@@ -373,6 +386,9 @@ def r2_set_order(ctx):
             # a tail slice handed to the same consumer that also takes [0] is the same construct
             key_kind = "index"
         key = f"{f.key}:{key_kind}"
+        if f in rank_groupers:
+            # named by role: the generator that groups the sorted candidates into ranks, wherever it lives
+            key = f"{ranker.key}:rank-grouping:{key_kind}"
         if key in seen:
             continue
         seen[key] = True
